@@ -2,6 +2,7 @@ use crate::report::Report;
 use crate::Opts;
 use serde_json::Value;
 
+pub mod c07;
 pub mod c08;
 pub mod c10;
 pub mod c12;
@@ -17,6 +18,7 @@ pub type ReplayResult = Result<Vec<String>, (Vec<String>, String, String)>;
 
 pub fn run(prop: &str, opts: &Opts) -> Vec<Report> {
     match prop {
+        "C07" => c07::run(opts),
         "C08" => c08::run(opts),
         "C10" => c10::run(opts),
         "C12" => c12::run(opts),
@@ -33,6 +35,7 @@ pub fn run(prop: &str, opts: &Opts) -> Vec<Report> {
 
 pub fn replay(prop: &str, case: &Value) -> ReplayResult {
     match prop {
+        "C07" => c07::replay(case),
         "C08" => c08::replay(case),
         "C10" => c10::replay(case),
         "C12" => c12::replay(case),
@@ -47,8 +50,11 @@ pub fn replay(prop: &str, case: &Value) -> ReplayResult {
     }
 }
 
-pub fn child(prop: &str, _spec: &str) {
-    crate::explore::machinery(&format!("no child mode for {}", prop));
+pub fn child(prop: &str, spec: &str) {
+    match prop {
+        "C07" => c07::child(spec),
+        _ => crate::explore::machinery(&format!("no child mode for {}", prop)),
+    }
 }
 
 pub fn choices_of(case: &Value) -> Vec<u16> {
